@@ -24,8 +24,12 @@ def new_cfg():
     return c
 
 
-def small_ruleset(rng, markov_pos=None, rich=False):
-    if rich:
+def small_ruleset(rng, markov_pos=None, rich=False, wide=False):
+    if wide:
+        # four letters, most transitions at one level: lists of three and four characters for one (context, level), so that a quit
+        # can fall on an interior entry of such a list
+        om = gen_omen.gen_omen(rng, ngram=2, nletters=4, maxlen_extra=1, levels=[0, 0, 0, 1], density=1.0)
+    elif rich:
         # lengths and n-grams at levels up to 2, Markov targets up to 4: a resumed level has to step to further lengths / IP levels
         om = gen_omen.gen_omen(rng, ngram=2, nletters=2, maxlen_extra=2, levels=[0, 1, 2], density=1.0)
         om['ln'][1:] = [rng.choice([0, 1]), 1, 2]          # lengths 2, 3, 4 at increasing length levels
